@@ -648,12 +648,14 @@ class Runner(object):
             self.abort_case = True
             return
         if cfg['safe'] and cls in ('hit', 'load') and '__h__' in repr(self.case['ops'][self.step_i][1:3]) \
-                and mem1 == mem0 and ((n_eval == 1 and dlt == (0, 1, 0)) or (n_eval == 0 and dlt in ((0, 0, 1), (1, 0, 0)))):
+                and mem1 == mem0 and ((n_eval == 1 and dlt == (0, 1, 0)) or (n_eval == 0 and cls == 'hit' and dlt == (0, 0, 1))):
             # an argument that cannot be printed / pickled / hashed everywhere (BadRepr & co.): a safe decorator may
             # degrade to plain evaluation at any internal step that needs repr() or hash() - e.g. CPython formatting
             # the "x not in deque" message - even though the key itself could be built; that is the documented
             # behaviour of the safe variants, not a statistics or compute-once defect
             self.note('calls_degraded_though_keyable')
+            if n_eval == 0:
+                self.abort_case = True     # (a hit that klepto served through its load path: recency not modelled further)
             return
         self.note('c02_checks')
         if n_eval and cls != 'degraded' and att0 and sk in self.retr:
